@@ -2983,6 +2983,10 @@ def _subrun_root_task(
         # information such as job id and call_hash.
         if not isinstance(result, dict):
             raise AssertionError(f"Unknown scheduler result: {result}")
+        if "error" in result:
+            # Fail this job as well (as a new execution does): a result that carries the error would be
+            # recorded as a success and replayed from the cache by a later execution.
+            raise result["error"]
         subrun_result.update(result)
 
     else:
